@@ -342,7 +342,73 @@ impl Run {
             .unwrap_or_else(|e| machinery_failure(self.prop, &format!("cannot read replay {}: {}", p, e)));
         let v: Value = serde_json::from_str(&s)
             .unwrap_or_else(|e| machinery_failure(self.prop, &format!("bad replay json: {}", e)));
+        if v["case"]["features"] == "all" && !is_sub() {
+            // a case found against the all-features build of the crate is replayed by that build of the check
+            let (out, _) = self.run_variant(&["--replay".to_string(), p.clone()]);
+            for l in out.lines().filter(|l| !l.starts_with("SUB")) {
+                println!("{}", l);
+            }
+            std::process::exit(if out.contains("VIOLATION property=") { 1 } else { 0 });
+        }
         Some(v)
+    }
+
+    /// Build this check against tls-parser with every cargo feature on (std, serialize, unstable) and run it
+    /// as a sub-process with `--sub`; returns its stdout and exit status.
+    fn run_variant(&self, extra: &[String]) -> (String, Option<i32>) {
+        use std::process::Command;
+        let bin = self.prop.to_lowercase();
+        let b = Command::new("cargo")
+            .args(["build", "--release", "--offline", "-p", "vchecks", "--bin", &bin, "--features", "tp-unstable", "--target-dir", VARIANT_TARGET])
+            .current_dir(format!("{}/harness", VERIF_DIR))
+            .env("CARGO_NET_OFFLINE", "true")
+            .output();
+        match b {
+            Ok(o) if o.status.success() => {}
+            Ok(o) => machinery_failure(self.prop, &format!("the all-features build of the check failed: {}", String::from_utf8_lossy(&o.stderr).lines().rev().take(6).collect::<Vec<_>>().join(" | "))),
+            Err(e) => machinery_failure(self.prop, &format!("cannot run cargo: {}", e)),
+        }
+        let o = Command::new(format!("{}/release/{}", VARIANT_TARGET, bin))
+            .arg("--sub")
+            .args(["--tier", self.tier.name()])
+            .args(extra)
+            .current_dir(VERIF_DIR)
+            .output()
+            .unwrap_or_else(|e| machinery_failure(self.prop, &format!("cannot run the all-features variant: {}", e)));
+        (String::from_utf8_lossy(&o.stdout).to_string(), o.status.code())
+    }
+
+    /// The same check against the crate built with all cargo features: its violations are merged into `sink`
+    /// (keys and texts marked, replay cases tagged so that the replay runs in that build). The properties
+    /// are stated for the crate, whatever features are enabled.
+    pub fn all_features_variant(&self, sink: &mut Sink) {
+        if is_sub() {
+            return;
+        }
+        let (out, code) = self.run_variant(&[]);
+        let mut evals = None;
+        for l in out.lines() {
+            if let Some(j) = l.strip_prefix("SUBVIOL ") {
+                if let Ok(v) = serde_json::from_str::<Value>(j) {
+                    let mut case = v["case"].clone();
+                    case["features"] = json!("all");
+                    sink.violation(
+                        format!("[all features] {}", v["key"].as_str().unwrap_or("")),
+                        format!("[tls-parser built with --all-features] {}", v["what"].as_str().unwrap_or("")),
+                        case,
+                    );
+                }
+            } else if let Some(n) = l.strip_prefix("SUBEVALS ") {
+                evals = n.trim().parse::<u64>().ok();
+            }
+        }
+        match evals {
+            Some(n) => {
+                sink.evals += n;
+                sink.bump("evaluations in the all-features configuration", n);
+            }
+            None => machinery_failure(self.prop, &format!("the all-features variant ended without a result (status {:?}): {:.300}", code, out.lines().rev().take(3).collect::<Vec<_>>().join(" | "))),
+        }
     }
 
     /// Write evidence, replay files, print verdict lines; returns the process exit code.
@@ -350,6 +416,14 @@ impl Run {
     /// `coverage` holds the check-specific keys (rule, exhaustive, states, ...); the counts
     /// measured by the sink are added here.
     pub fn finish(&self, sink: &Sink, mut coverage: Map<String, Value>, assumptions: Vec<String>) -> i32 {
+        if is_sub() {
+            // sub-process of all_features_variant: hand the findings to the parent, write nothing
+            for v in sink.viol.iter().take(300) {
+                println!("SUBVIOL {}", json!({"key": v.key, "what": v.what, "case": v.replay}));
+            }
+            println!("SUBEVALS {}", sink.evals);
+            return 0;
+        }
         let known = load_known();
         let mut fresh: Vec<&Violation> = Vec::new();
         let mut known_hits: Vec<(&Violation, &Known)> = Vec::new();
@@ -451,6 +525,13 @@ impl Run {
             1
         }
     }
+}
+
+pub const VARIANT_TARGET: &str = "/verif/target/feat-unstable";
+
+/// true in the sub-process that `Run::all_features_variant` starts
+pub fn is_sub() -> bool {
+    std::env::args().any(|a| a == "--sub")
 }
 
 /// Parallel map over `n` work items with dynamic scheduling; each worker owns a Sink.
